@@ -8,6 +8,7 @@ import (
 	"encoding/json"
 	"fmt"
 	"net/url"
+	"reflect"
 	"strings"
 	"sync"
 	"testing"
@@ -93,7 +94,20 @@ func c13Message(e *spemitEmission, v *spemitVec) (root *etree.Element, rawQuery 
 	return root, rawQuery, err
 }
 
-func c13RunCase(v *spemitVec, c *spemitConc) c13Result {
+func c13RunCase(v *spemitVec, c *spemitConc) c13Result { return c13RunCaseOn(nil, v, c) }
+
+// c13Reconfigure assigns the exported fields of fresh to s, leaving any unexported
+// state of s (caches) as it is - what an application does when it rolls a key over.
+func c13Reconfigure(s, fresh *saml.ServiceProvider) {
+	dv, sv := reflect.ValueOf(s).Elem(), reflect.ValueOf(fresh).Elem()
+	for i := 0; i < dv.NumField(); i++ {
+		if dv.Type().Field(i).IsExported() {
+			dv.Field(i).Set(sv.Field(i))
+		}
+	}
+}
+
+func c13RunCaseOn(existing *saml.ServiceProvider, v *spemitVec, c *spemitConc) c13Result {
 	var res c13Result
 	kb := v.In.Kind + "-" + v.In.Binding
 	mk := fmt.Sprintf("method=%s:key=%s", v.Cfg.Method, v.Cfg.Key)
@@ -101,6 +115,10 @@ func c13RunCase(v *spemitVec, c *spemitConc) c13Result {
 		res.Findings = append(res.Findings, spemitFinding{Key: key, Clause: clause})
 	}
 	s := spemitSP(v, c)
+	if existing != nil {
+		c13Reconfigure(existing, s)
+		s = existing
+	}
 	e := spemitEmit(s, v, c)
 	res.Sigform = "none"
 	if e.Panic != "" {
@@ -392,4 +410,80 @@ func init() {
 		return len(res.Findings) > 0, string(b)
 	})
 	_ = x509.Certificate{}
+}
+
+// TestC13History replays the configuration histories of spec/SPEmitHistory.tla on ONE
+// ServiceProvider value per history: what is signed must follow the configuration in force.
+func TestC13History(t *testing.T) {
+	rep := NewReport("C13")
+	defer rep.Finish(t)
+	rep.Rule = "every sequence of up to MaxLen (key, method) configurations from spec/SPEmitHistory.tla is replayed on one ServiceProvider value (exported fields reassigned between emissions); after each reassignment one message of every kind/binding is emitted and judged exactly like the stateless cases"
+	lines := loadLines(t, "hist.ndjson")
+	if len(lines) == 0 {
+		rep.Break("no histories")
+		return
+	}
+	oldNow := saml.TimeNow
+	saml.TimeNow = func() time.Time { return c12Fixed }
+	defer func() { saml.TimeNow = oldNow }()
+	kinds := [][2]string{{"authn", "redirect"}, {"authn", "post"}, {"logoutreq", "post"}, {"logoutresp", "redirect"}, {"artifact", "soap"}}
+	type hstep struct {
+		Cfg struct {
+			Key    string `json:"key"`
+			Method string `json:"method"`
+		} `json:"cfg"`
+		Req struct {
+			Outcome string `json:"outcome"`
+		} `json:"req"`
+	}
+	parallel(len(lines), func(i int) {
+		var h struct {
+			Steps []hstep `json:"steps"`
+		}
+		if err := json.Unmarshal(lines[i], &h); err != nil {
+			rep.Break("bad history: %v", err)
+			return
+		}
+		var hk []string
+		for _, st := range h.Steps {
+			hk = append(hk, st.Cfg.Key+"/"+st.Cfg.Method)
+		}
+		hid := strings.Join(hk, ">")
+		rng := newRand("c13hist/" + hid)
+		var obj *saml.ServiceProvider
+		for si, st := range h.Steps {
+			kb := kinds[rng.Intn(len(kinds))]
+			for _, kbx := range [][2]string{kb, kinds[(si+i)%len(kinds)]} {
+				v := &spemitVec{Prop: "C13"}
+				v.Cfg.Query, v.Cfg.Method, v.Cfg.Key, v.Cfg.NidFmt, v.Cfg.Force = "none", st.Cfg.Method, st.Cfg.Key, "unset", "unset"
+				v.In.Fam, v.In.Kind, v.In.Binding, v.In.Relay = "sig", kbx[0], kbx[1], []string{"plain"}
+				if kbx[0] == "logoutreq" {
+					v.In.NameID = []string{"plain"}
+				}
+				v.Required.Form, v.Required.Policy = "enveloped", "transient"
+				if kbx[0] == "authn" && kbx[1] == "redirect" {
+					v.Required.Form = "detached"
+				}
+				v.Class = "MustAccept"
+				if st.Req.Outcome == "error" {
+					v.Class = "MustReject"
+				}
+				c := spemitConcretise(v, rng)
+				if obj == nil {
+					obj = spemitSP(v, c)
+				}
+				res := c13RunCaseOn(obj, v, c)
+				rep.Eval(v.Class, fmt.Sprintf("hist:%s:%d:%s-%s", hid, si, kbx[0], kbx[1]))
+				rep.Trace(1)
+				for _, f := range res.Findings {
+					rep.Violation("C13:history:step="+fmt.Sprint(si+1)+":"+strings.TrimPrefix(f.Key, "C13:"),
+						f.Clause+" (after the same ServiceProvider value was reconfigured: "+hid+")",
+						map[string]any{"history": h, "step": si + 1, "vector": v, "observed": res})
+				}
+			}
+		}
+		if i%97 == 0 {
+			rep.Sample(map[string]any{"history": hid})
+		}
+	})
 }
